@@ -100,6 +100,19 @@ func c12Pairing(c *Ctx) {
 						return true
 					}
 				}
+				// or a plain Done that no return of the goroutine gets past
+				isDone := func(it Item) bool {
+					if _, isDefer := it.In.(*ssa.Defer); isDefer {
+						return false
+					}
+					cc2, ok := callCommon(it)
+					return ok && p.CalleeName(cc2) == "(*sync.WaitGroup).Done" && sameWG(cc2.Args[0])
+				}
+				if len(WholeFn(f).Find(isDone)) > 0 {
+					if esc, _ := WholeFn(f).Escape(isDone); !esc {
+						return true
+					}
+				}
 				return false
 			}
 			spawn := func(it Item) bool {
@@ -167,7 +180,7 @@ func init() {
 		Title: "Shutdown always completes: no hang, no panic, channels closed",
 		Explain: "Decides structural necessary conditions of clean shutdown: WaitGroup Add/Done pairing of the fan-out helpers (C12.pairing; the pipeline groups are covered by C01/C03/C07 rules that this property shares); a frozen table of close() sites per channel field with their once/defer attributes, so that a second closer or a closer outside its sync.Once is reported (C12.close-sites); the close/wait hand-shakes of client, broker, offset manager, heartbeat, partition consumer and subscription manager (C12.handshakes); every blocking select of the long-running loops has a case on its component's shutdown channel (C12.dying); for channels closed by their only sender, the sender table (C12.who-sends); the closure handed to a sync.Once in a Close path has no return that skips teardown its normal exit performs (C12.once-complete); every subscription of a broker worker that gives up is handed back to its dispatcher exactly once, dying ones included — the hand-over is what lets a closing partition consumer finish (C03.redispatch, shared). " +
 			"NOT covered: absence of deadlock in general, send/close races that need a happens-before argument (consumerGroup.errors, partitionConsumer.errors/trigger).",
-		Rules: []func(*Ctx){c12Pairing, c12CloseSites, c12OnceComplete, c12LockReleased, c12Refcount, c12Handshakes, c12Dying, c12WhoSends, c12SendVsCloseLock, c01Shutdown, c01BrokerShutdown, c01Markers, c03Redispatch, c03ErrLost, c07Order, c01CloseDrains, c12RetryObservesClose, c12DispatcherObservesDying, c12NoDetachedSend, c01AsyncCloseNonBlocking, c03TimerRearmed, c12ClosedTestApartFromSend, c01ShutdownSelects, c03VerdictConsumed},
+		Rules: []func(*Ctx){c12Pairing, c12CloseSites, c12OnceComplete, c12LockReleased, c12Refcount, c12Handshakes, c12Dying, c12WhoSends, c12SendVsCloseLock, c01Shutdown, c01BrokerShutdown, c01Markers, c03Redispatch, c03ErrLost, c07Order, c01CloseDrains, c12RetryObservesClose, c12DispatcherObservesDying, c12NoDetachedSend, c01AsyncCloseNonBlocking, c03TimerRearmed, c12ClosedTestApartFromSend, c01ShutdownSelects, c03VerdictConsumed, c07Fenced, c14ReopenableAfterClose, c14CloseTeardownComplete, c03HandedOverBatch, c12LoopVarCapture},
 	})
 }
 
@@ -750,24 +763,23 @@ func dyingRule(c *Ctx, floor int, include func(string) bool) {
 			continue
 		}
 		n := 0
-		for _, b := range fn.Blocks {
-			for _, in := range b.Instrs {
-				sel, ok := in.(*ssa.Select)
-				if !ok || !sel.Blocking {
-					continue
-				}
-				n++
-				has := false
-				for _, st := range sel.States {
-					if st.Dir == types.RecvOnly && FieldLoad(dyingTable[name]...)(st.Chan) {
-						has = true
-					}
-				}
-				// the feeder's inner slow-reader select and run's main select are covered by the same test
-				c.Check(has, rule, fn, "select-has-shutdown-case", sel, "blocking select has a case on "+strings.Join(dyingTable[name], "/"),
-					"a blocking select in "+name+" has no case on the shutdown channel ("+strings.Join(dyingTable[name], "/")+"): Close()/AsyncClose hangs while it waits", nil)
+		// (immediately-invoked literals included: a loop step written as one is part of the function)
+		Info(fn).Each(func(it Item) {
+			sel, ok := it.In.(*ssa.Select)
+			if !ok || !sel.Blocking {
+				return
 			}
-		}
+			n++
+			has := false
+			for _, st := range sel.States {
+				if st.Dir == types.RecvOnly && FieldLoad(dyingTable[name]...)(st.Chan) {
+					has = true
+				}
+			}
+			// the feeder's inner slow-reader select and run's main select are covered by the same test
+			c.Check(has, rule, fn, "select-has-shutdown-case", sel, "blocking select has a case on "+strings.Join(dyingTable[name], "/"),
+				"a blocking select in "+name+" has no case on the shutdown channel ("+strings.Join(dyingTable[name], "/")+"): Close()/AsyncClose hangs while it waits", nil)
+		})
 		if n == 0 {
 			c.Fail(rule, fn, "select-has-shutdown-case", nil, "no blocking select found in "+name+" (anchor drifted)", nil)
 		}
